@@ -41,15 +41,20 @@
 (* indexes written by other tools.                                         *)
 (* conf.fixed = FALSE models tagDelete / indexSet as they are at HEAD      *)
 (* (forward range with slices.Delete - TDLoopHead -, exact match on        *)
-(* ref.name); TRUE models the repaired code of findings/C06-1.patch (every *)
-(* entry that names the tag, also through a full image name).              *)
+(* ref.name); TRUE models the repaired code: findings/C06-1.patch (every   *)
+(* entry that names the tag, also through a full image name), C06-3.patch  *)
+(* (reg.ManifestDelete clears the cache entry again after the DELETE) and  *)
+(* C06-4.patch (ocidir.ManifestHead keeps the mutex over index and stat).  *)
 (*                                                                         *)
 (* Deliberate deviations: blob uploads of the fall-back and reghttp        *)
 (* retries are not modelled; placeholder digests are fresh values (the     *)
 (* code derives them from time.Now(), assumed distinct per call); the      *)
 (* cache never expires or evicts within a run; no referrers (the pool's    *)
 (* manifests have no subject); layout GC (Close) is not run; UseMutex =    *)
-(* FALSE removes o.mu to show it is load-bearing (not part of any check).  *)
+(* FALSE removes o.mu and FreshPH = FALSE the uniqueness of placeholders,  *)
+(* to show that both are load-bearing (expected counterexamples).          *)
+(* conf.warm: the manifest cache already holds what the registry stores    *)
+(* (the driver looked at every digest before the concurrent round).        *)
 (*                                                                         *)
 (* Checked (cfg C06_mc_*.cfg):                                             *)
 (*   Glue          at every step the registry differs from the reference   *)
@@ -70,7 +75,9 @@ CONSTANTS Procs,     \* client goroutines
           Confs,     \* set of configurations, one is picked in Init
           MaxOps,    \* operations per goroutine
           OpTags, OpMans, OpKinds,   \* alphabet of the operations issued
-          UseMutex
+          UseMutex,  \* TRUE; FALSE removes o.mu (sanity: the lost update must show)
+          FreshPH    \* TRUE: every fall-back delete makes its own placeholder; FALSE: one for all
+                     \* (sanity: the uniqueness the code gets from time.Now() is load-bearing)
 
 VARIABLES conf,
           rtags, rmans, nph,          \* registry: tag map, manifests, placeholders made so far
@@ -278,7 +285,7 @@ RegStep(p) ==
             ELSE /\ Park(p, "FBPUT") /\ RegUnch /\ NoLin /\ UNCHANGED <<cache, loc, viol>>
        [] pc[p] = "FBPUT" ->
             \* the placeholder overwrites the tag: from here on the old content is unreachable
-            LET ph == PH(nph + 1)
+            LET ph == IF FreshPH THEN PH(nph + 1) ELSE PH(0)
                 rt == [rtags EXCEPT ![o.t] = ph] IN
             /\ rtags' = rt /\ rmans' = rmans \cup {ph} /\ nph' = nph + 1
             /\ UNCHANGED <<cache, viol>>   \* cacheMan.Set(ph) by ManifestPut, cacheMan.Delete(ph) by ManifestDelete
@@ -287,7 +294,10 @@ RegStep(p) ==
        [] pc[p] = "FBDEL" ->
             LET ph == loc[p].ph IN
             IF ph \in rmans
-            THEN /\ SrvDelMan(ph) /\ UNCHANGED <<nph, cache, viol>> /\ NoLin /\ Return(p)
+            THEN /\ SrvDelMan(ph) /\ UNCHANGED <<nph, viol>> /\ NoLin /\ Return(p)
+                 \* a get of the tag served in the window has cached the placeholder (harmless: nobody
+                 \* asks for that digest); the repaired ManifestDelete drops it
+                 /\ cache' = IF conf.fixed THEN cache \ {ph} ELSE cache
                  /\ loc' = Locs(p, IdleLoc, rtags', atags, amans, aamb)
             ELSE /\ RegUnch /\ NoLin /\ Return(p) /\ UNCHANGED cache
                  /\ loc' = [loc EXCEPT ![p] = IdleLoc]
@@ -301,7 +311,9 @@ RegStep(p) ==
                  /\ viol' = Flag(Unjust(o), "refused-mdelr")
        [] pc[p] = "DEL" ->
             IF o.m \in rmans
-            THEN /\ SrvDelMan(o.m) /\ UNCHANGED <<nph, cache, viol>>
+            THEN /\ SrvDelMan(o.m) /\ UNCHANGED <<nph, viol>>
+                 \* findings/C06-3.patch: cacheMan.Delete once more after the 202
+                 /\ cache' = IF conf.fixed THEN cache \ {o.m} ELSE cache
                  /\ Lin(o) /\ Return(p)
                  /\ loc' = Locs(p, IdleLoc, rtags', atags', amans', aamb')
             ELSE /\ Return(p) /\ RegUnch /\ NoLin /\ UNCHANGED <<cache, loc>>
@@ -417,16 +429,19 @@ LayStep(p) ==
             LET d == IF ~ReadOK THEN NONE
                      ELSE IF o.t # "" THEN IndexGet(index, o.t) ELSE o.m IN
             /\ UseMutex => mu = NONE
-            /\ NoLin /\ UNCHANGED <<index, files, marker, mu>>
+            /\ NoLin /\ UNCHANGED <<index, files, marker>>
             /\ IF d = NONE
-               THEN /\ Return(p) /\ loc' = [loc EXCEPT ![p] = IdleLoc]
+               THEN /\ Return(p) /\ loc' = [loc EXCEPT ![p] = IdleLoc] /\ UNCHANGED mu
                     /\ viol' = Flag(NONE \notin loc[p].seen, "read-differs")
                ELSE /\ Park(p, "HSTAT") /\ UNCHANGED viol
+                    \* findings/C06-4.patch: the mutex is kept until the file has been checked
+                    /\ IF conf.fixed THEN Lock(p) ELSE UNCHANGED mu
                     /\ loc' = [loc EXCEPT ![p] = [@ EXCEPT !.d = d]]
        [] pc[p] = "HSTAT" ->
             \* os.Stat outside the mutex
             LET d == IF loc[p].d \in files THEN loc[p].d ELSE NONE IN
-            /\ NoLin /\ UNCHANGED <<index, files, marker, mu, viol>> /\ Return(p)
+            /\ NoLin /\ UNCHANGED <<index, files, marker, viol>> /\ Return(p)
+            /\ IF conf.fixed THEN Unlock ELSE UNCHANGED mu
             /\ loc' = [loc EXCEPT ![p] = IdleLoc]   \* the answer d is judged by invariant HeadStable
        [] pc[p] = "GREAD" ->
             LET d == IF ~ReadOK THEN NONE
